@@ -56,6 +56,7 @@ int   g_fw_mode;     /* the Hwrite/Hread stubs classify what they get */
 int32 g_elem_length; /* what Hinquire reports: <= 0: the element does not exist yet */
 int   g_isspecial;
 int   g_have_attr;   /* a _FillValue attribute exists */
+int   g_need_conv;   /* the number type is stored in another representation than the platform's */
 int   g_user_n;      /* Hwrite calls that carried the caller's data */
 int   g_user_pos;    /* position at which the caller's data was written / read */
 int   g_user_sum;    /* bytes handed to Hwrite BEFORE the caller's data */
@@ -152,14 +153,17 @@ Hwrite(int32 access_id, int32 length, const void *data)
     }
     if (g_fw_mode) {
         if (data == (void *)g_rq_values || (g_conv_src == (void *)g_rq_values && data == g_conv_dest)) {
-            /* the caller's data (directly, or its conversion) */
+            /* the caller's data: as it is for a native / little-endian type, else its conversion */
+            H4V_CHECK(g_need_conv ? data != (void *)g_rq_values : data == (void *)g_rq_values,
+                      "the caller's data is written in file representation");
             g_user_n++;
             g_user_pos = g_pos;
             g_user_sum = g_hw_bytes;
             g_user_len = length;
         }
         else /* a fill chunk: taken from the buffer that was filled with fill values (and converted) */
-            H4V_CHECK((data == g_fill_dest || (g_conv_src == g_fill_dest && data == g_conv_dest)) &&
+            H4V_CHECK((g_need_conv ? (g_conv_src == g_fill_dest && data == g_conv_dest && data != g_fill_dest)
+                                   : data == g_fill_dest) &&
                           (unsigned long)length <= g_fill_bytes,
                       "every fill chunk lies inside the buffer holding the (converted) fill values");
     }
@@ -620,6 +624,7 @@ h_NCvdata_firstwrite(void)
     s_vp.len      = v_len;
     /* standard (converted on this platform), native or little-endian (written as they are) */
     s_vp.HDFtype = DFNT_INT32 | (nt_mode == 1 ? DFNT_NATIVE : nt_mode == 2 ? DFNT_LITEND : 0);
+    g_need_conv  = !(nt_mode == 1 || nt_mode == 2); /* little-endian platform */
     static h4v_ulong s_shape[1], s_dsizes[1];
     H4V_ND(h4v_ulong, shape0);
     s_shape[0]  = shape0;
